@@ -222,6 +222,10 @@ func nodeOfStmt(st ast.Stmt) string {
 }
 
 func main() {
+	if len(os.Args) > 1 && os.Args[1] == "-run" {
+		runMain() // run.go: action.Run / LoadContentsFromFile (acquire … defer release) and every fan-out → Gen/RunFrame.lean
+		return
+	}
 	if len(os.Args) > 1 && os.Args[1] == "-startup" {
 		startupMain() // startup.go: what runs before the signal handling exists → Gen/Startup.lean
 		return
